@@ -3,10 +3,11 @@
    QcS/Vec/Crs are extracted because ocaml/io.ml (shared case parser) refers to them. *)
 From Amgcl Require Import ExtractCommon.
 From Coq Require Import QArith Qcanon.
-From Amgcl Require Import Scalar QcInst Vec Crs Own LowLevel LowLevelT LowLevel2 LowLevel2G LowLevel2A LowLevel2I.
+From Amgcl Require Import Scalar QcInst Vec Crs Own LowLevel LowLevelT LowLevel2 LowLevel2G LowLevel2A LowLevel2I LowLevel2K CuthillMcKee.
 Separate Extraction
   QcInst.QcS Scalar.is_zero Scalar.smax Scalar.smin
   Vec Crs Own
   LowLevelT.flat_of LowLevel2.ll_sort_rows LowLevel2.fresh LowLevel2.filled
   LowLevel2G.ll_spgemm LowLevel2G.minit
-  LowLevel2A.ll_plain_aggregates LowLevel2A.ll_tentative LowLevel2I.ll_ilu0.
+  LowLevel2A.ll_plain_aggregates LowLevel2A.ll_tentative LowLevel2I.ll_ilu0
+  LowLevel2K.ll_sky_build LowLevel2K.ll_sky_solve CuthillMcKee.cuthill_mckee.
